@@ -155,13 +155,23 @@ def run_callsite(case, obs):
     text = render(prog)
     obs["key"] = ["callsite|" + text]
     cb = harness.run_cb(prog)
-    conv = harness.convert(text, default_str_storage=255)
+    if case.get("bundle"):
+        # the helpers as the tool BUNDLES them (output_dependencies): the procedures of the emitted text itself are run,
+        # sized as the tool sized them, under a configuration file that gives some other variable a size of its own
+        from coco.b09.configs import CompilerConfigs, StringConfigs
+
+        obs["key"] = ["bundle|%s|%s|%s" % (text, case["storage"], sorted(case["cfg"].items()))]
+        conv = harness.convert(text, default_str_storage=case["storage"], output_dependencies=True, procname="prog", add_standard_prefix=False,
+                               compiler_configs=CompilerConfigs(string_configs=StringConfigs(strname_to_size=case["cfg"])))
+        obs["counters"]["bundled_helper_runs"] = 1
+    else:
+        conv = harness.convert(text, default_str_storage=255)
     obs["counters"]["helper_calls_interpreted"] = 1
     if cb["status"] != "ok" or not conv["ok"]:
         obs["counters"]["callsite_dropped"] = 1
         obs["nontrivial"] = False
         return obs
-    b = harness.run_b09(conv["out"], storage=255)
+    b = harness.run_b09(conv["out"], storage=case.get("storage", 255))
     if b["status"] != "ok":
         obs["viols"].append({"sig": "C20/callsite/%s/b09-%s" % (case["what"], b["status"]),
                              "detail": {"source": text, "error": b["error"], "emitted": conv["out"][-600:]}})
@@ -233,6 +243,33 @@ def cases(tier, seed):
                     (20, [("let", ("var", "R$"), ("fn", "STRING$", [("var", "N"), ("var", "A$")]), False)]),
                     (30, [("let", ("var", "Q$"), ("bin", "+", ("fn", "STRING$", [X.num(cnt), ("str", s)]), ("str", "!")), False)])]
             yield {"kind": "callsite", "what": "STRING$", "prog": prog}
+    # the target of the assignment is also an argument (BASIC09 passes variables by reference: result and argument are then
+    # the same storage inside the helper)
+    for st in (32, 80):
+        prog = [(10, [("let", ("var", "A$"), ("str", "HELLO"), False), ("let", ("var", "N"), X.num(2), False), ("let", ("var", "M"), X.num(3), False)]),
+                (20, [("let", ("var", "A$"), ("fn", "STRING$", [X.num(3), ("var", "A$")]), False)]),
+                (30, [("let", ("var", "N"), ("fn", "INSTR", [("var", "N"), ("str", "ABCABC"), ("str", "BC")]), False)]),
+                (40, [("let", ("var", "M"), ("fn", "INSTR", [("var", "M"), ("str", "ABCABC"), ("str", "BC")]), False)])]
+        yield {"kind": "callsite", "what": "target-is-argument", "prog": prog, "bundle": True, "storage": st, "cfg": {}}
+        yield {"kind": "callsite", "what": "target-is-argument", "prog": prog}
+        # (array elements only against the reference's own copy of the library: without the prologue there is no BASE 0)
+        prog = [(5, [("dim", [("B$", [3], ["3"])])]), (10, [("let", ("arr", "B$", [X.num(1)]), ("str", "XY"), False)]),
+                (20, [("let", ("arr", "B$", [X.num(1)]), ("fn", "STRING$", [X.num(2), ("arr", "B$", [X.num(1)])]), False)])]
+        yield {"kind": "callsite", "what": "target-is-argument", "prog": prog}
+    # the bundled helpers under a configuration file: strings of 19-20 characters, default size 32 / 64 / 255, another name
+    # configured smaller or larger than that
+    long_s, pat = "THE QUICK BROWN FOX", "FOX"
+    for storage in (32, 64, 255):
+        for cfg in ({"N$()": 8}, {"ZZ$": 5, "Q$": 9}, {"Q$": 300}, {}):
+            prog = [(10, [("let", ("var", "A$"), ("str", long_s), False), ("let", ("var", "B$"), ("str", pat), False)]),
+                    (20, [("let", ("var", "R"), ("fn", "INSTR", [X.num(1), ("var", "A$"), ("var", "B$")]), False),
+                          ("let", ("var", "Q"), ("fn", "INSTR", [X.num(3), ("str", long_s), ("str", "BROWN FOX")]), False)]),
+                    (30, [("let", ("var", "R$"), ("fn", "STRING$", [X.num(20), ("str", "*")]), False),
+                          ("let", ("var", "S$"), ("bin", "+", ("fn", "STRING$", [X.num(18), ("var", "B$")]), ("str", "!")), False)])]
+            yield {"kind": "callsite", "what": "bundled-helpers", "prog": prog, "bundle": True, "storage": storage, "cfg": cfg}
+            prog = [(10, [("data", [("u", ""), ("n", 123456.789, ["123456.789"]), ("n", 1e-5, ["1", "E", "-", "5"])])]),
+                    (20, [("read", [("var", "A"), ("var", "B"), ("var", "C")])])]
+            yield {"kind": "callsite", "what": "bundled-read-filter", "prog": prog, "bundle": True, "storage": storage, "cfg": cfg}
     # every numeric spelling, with and without an empty item in the program (the two READ paths)
     spellings = [["1", "E", "-", "5"], ["2", "E", "-", "7"], ["1.25", "E", "-", "5"], ["1", "E", "20"], [".000001"], ["123456.789"],
                  ["-", "1", "E", "-", "10"], ["1", "E", "3"], ["0.00004"], ["65535"], ["1.5", "E", "+", "2"], ["-", ".5"], ["12."], ["007"]]
